@@ -13,6 +13,7 @@ import (
 	"time"
 
 	"github.com/alicebob/miniredis/v2"
+	"github.com/alicebob/miniredis/v2/server"
 	"github.com/cockroachdb/errors"
 	clientv3 "go.etcd.io/etcd/client/v3"
 
@@ -41,8 +42,35 @@ type Backend struct {
 	mr    *miniredis.Miniredis
 	cli   *clientv3.Client
 	lease *leaseRec
+	kv    *kvHook
+	rhook func()
+	rmu   sync.Mutex
 	vnow  int64
 	Real  bool // etcd only: real-time leases (thorough tier), Advance sleeps
+}
+
+// kvHook wraps the etcd KV client: when armed, the next Txn() first runs the
+// injected call (another client's complete Store call), i.e. the injected call
+// happens between the phases of a multi-phase method of the store.
+type kvHook struct {
+	clientv3.KV
+	mu   sync.Mutex
+	hook func()
+}
+
+func (k *kvHook) take() func() {
+	k.mu.Lock()
+	defer k.mu.Unlock()
+	h := k.hook
+	k.hook = nil
+	return h
+}
+
+func (k *kvHook) Txn(ctx context.Context) clientv3.Txn {
+	if h := k.take(); h != nil {
+		h()
+	}
+	return k.KV.Txn(ctx)
 }
 
 // leaseRec wraps the etcd lease client: it records Grant/KeepAliveOnce so that
@@ -168,6 +196,8 @@ func NewEtcd(t *testing.T) *Backend {
 	b.cli = embedded.NewCluster(t, cfg.Etcd.Prefix).RandClient()
 	b.lease = &leaseRec{Lease: b.cli.Lease, b: b, ttl: map[clientv3.LeaseID]int64{}, expiry: map[clientv3.LeaseID]int64{}, virt: map[clientv3.LeaseID]bool{}}
 	b.cli.Lease = b.lease
+	b.kv = &kvHook{KV: b.cli.KV}
+	b.cli.KV = b.kv
 	return b
 }
 
@@ -186,7 +216,54 @@ func NewRedis(t *testing.T) *Backend {
 		t.Fatalf("redis store: %v", err)
 	}
 	t.Cleanup(r.TerminateEmbededStorage)
-	return &Backend{Name: "redis", S: r, mr: mr}
+	b := &Backend{Name: "redis", S: r, mr: mr}
+	// when armed, the next MULTI first lets the injected call run to completion
+	mr.Server().SetPreHook(func(_ *server.Peer, cmd string, _ ...string) bool {
+		if cmd == "MULTI" {
+			b.rmu.Lock()
+			h := b.rhook
+			b.rhook = nil
+			b.rmu.Unlock()
+			if h != nil {
+				h()
+			}
+		}
+		return false
+	})
+	return b
+}
+
+// ExecInjected runs outer with inner injected at outer's first transaction
+// (etcd: first Txn, redis: first MULTI).  If outer never reaches a transaction
+// inner is not executed (reported as not run).
+func (b *Backend) ExecInjected(outer, inner Op) (ro, ri Res, ran bool) {
+	var mu sync.Mutex
+	h := func() {
+		r := b.Exec(inner)
+		mu.Lock()
+		ri, ran = r, true
+		mu.Unlock()
+	}
+	if b.kv != nil {
+		b.kv.mu.Lock()
+		b.kv.hook = h
+		b.kv.mu.Unlock()
+	} else {
+		b.rmu.Lock()
+		b.rhook = h
+		b.rmu.Unlock()
+	}
+	ro = b.Exec(outer)
+	if b.kv != nil {
+		b.kv.take()
+	} else {
+		b.rmu.Lock()
+		b.rhook = nil
+		b.rmu.Unlock()
+	}
+	mu.Lock()
+	defer mu.Unlock()
+	return ro, ri, ran
 }
 
 // Reset empties the store.
